@@ -171,10 +171,8 @@ func getLabels(ctr types.Container) containerLabels {
 
 func (c containerLabels) Match(matchers []logql.LabelMatcher) bool {
 	for _, matcher := range matchers {
-		value, ok := c.labels[string(matcher.Label)]
-		if !ok {
-			return false
-		}
+		// NOTE: missing label is the same as label with empty value.
+		value := c.labels[string(matcher.Label)]
 		if !match(matcher, value) {
 			return false
 		}
